@@ -647,7 +647,10 @@ class UpdateCollection(Message):
                 # RFC 7606 section 7.3: a NEXT_HOP attribute whose length is not 4 is malformed
                 classic_nexthop = attributes.get(Attribute.CODE.NEXT_HOP, None)
                 malformed_nexthop = classic_nexthop is not None and len(classic_nexthop._packed) != IPv4.BYTES
-            if malformed_nexthop or any(code not in attributes for code in mandatory):
+            # RFC 7606 section 7.2: an AS_PATH with a segment length of zero is malformed
+            as_path = attributes.get(Attribute.CODE.AS_PATH, None)
+            malformed_as_path = as_path is not None and any(len(segment) == 0 for segment in getattr(as_path, 'aspath', ()))
+            if malformed_nexthop or malformed_as_path or any(code not in attributes for code in mandatory):
                 withdraws.extend(routed.nlri for routed in announces)
                 announces = []
 
